@@ -935,4 +935,576 @@ theorem concatEvs_fuel_ok (cfg : Cfg) (n : Nat) (evs : KVs) (hd : depthKVs evs <
           rw [depth_map] at h1; omega
       omega
 
+/-! ### messages -/
+
+def assemble (R N I : Except Err String) (T : Except Err (List TC)) (E : Except Err KVs)
+    (content : String) (multi : List Nat) (rm : Option Meta) : Except Err Msg := do
+  let role ← R
+  let name ← N
+  let tcid ← I
+  let tcs ← T
+  let extra ← E
+  pure { role := role, name := name, toolCallID := tcid, content := content, multi := multi,
+         toolCalls := tcs, rmeta := rm, extra := extra }
+
+def IsErr {α} (x : Except Err α) : Prop := ∃ e, x = .error e
+
+theorem assemble_eqv (R N I T) (E E' : Except Err KVs) (c m rm) (h : EqvE E E') :
+    EqvE (assemble R N I T E c m rm) (assemble R N I T E' c m rm) := by
+  unfold assemble
+  cases R <;> cases N <;> cases I <;> cases T <;> cases E <;> cases E' <;>
+    simp_all [EqvE, bind, Except.bind, pure, Except.pure]
+
+theorem assemble_ok (R N I T E c m rm) (r : Msg) (h : assemble R N I T E c m rm = .ok r) :
+    ∃ a b i d e, R = .ok a ∧ N = .ok b ∧ I = .ok i ∧ T = .ok d ∧ E = .ok e ∧
+      r = { role := a, name := b, toolCallID := i, content := c, multi := m, toolCalls := d, rmeta := rm, extra := e } := by
+  unfold assemble at h
+  cases R <;> cases N <;> cases I <;> cases T <;> cases E <;>
+    simp_all [bind, Except.bind, pure, Except.pure]
+
+theorem assemble_err_inv (R N I T E c m rm) (x : Err) (h : assemble R N I T E c m rm = .error x) :
+    IsErr R ∨ IsErr N ∨ IsErr I ∨ IsErr T ∨ IsErr E := by
+  unfold assemble at h
+  cases R <;> cases N <;> cases I <;> cases T <;> cases E <;>
+    simp_all [bind, Except.bind, pure, Except.pure, IsErr]
+
+theorem assemble_err (R N I T E c m rm) (h : IsErr R ∨ IsErr N ∨ IsErr I ∨ IsErr T ∨ IsErr E) :
+    IsErr (assemble R N I T E c m rm) := by
+  unfold assemble
+  cases R <;> cases N <;> cases I <;> cases T <;> cases E <;>
+    simp_all [bind, Except.bind, pure, Except.pure, IsErr]
+
+theorem flatten_filter_nonempty (l : List KVs) : (l.filter (fun e => !e.isEmpty)).flatten = l.flatten := by
+  induction l with
+  | nil => rfl
+  | cons a l ih =>
+    cases a with
+    | nil => simp [List.filter_cons, ih]
+    | cons p q => simp [List.filter_cons, ih]
+
+theorem concatMsgs_eq (cfg : Cfg) (n : Nat) (ms : List Msg) :
+    concatMsgs cfg n ms =
+      assemble (firstNE cfg.roleCheck "" (ms.map (·.role))) (firstNE cfg.nameCheck "" (ms.map (·.name)))
+        (firstNE cfg.tcidCheck "" (ms.map (·.toolCallID))) (concatTC cfg (ms.flatMap (·.toolCalls)))
+        (concatEvs cfg n (ms.map (·.extra)).flatten)
+        (joinS (ms.map (·.content))) (lastNEl [] (ms.map (·.multi))) (concatMeta (ms.map (·.rmeta))) := by
+  unfold concatMsgs assemble concatMaps
+  rw [flatten_filter_nonempty]
+
+theorem firstNE_err_append (c : Bool) (xs ys : List String) (h : IsErr (firstNE c "" xs)) :
+    IsErr (firstNE c "" (xs ++ ys)) := by
+  obtain ⟨e, he⟩ := h
+  rw [firstNE_append, he]; exact ⟨e, rfl⟩
+
+theorem firstNE_ok_append (c : Bool) (xs ys : List String) (a : String) (h : firstNE c "" xs = .ok a) :
+    firstNE c "" (a :: ys) = firstNE c "" (xs ++ ys) := by
+  rw [firstNE_append, h, firstNE_cons_empty]; rfl
+
+/-- re-chunking law for `ConcatMessages` -/
+theorem concatMsgs_rechunk (cfg : Cfg) (n : Nat) (xs ys : List Msg) :
+    EqvE (concatMsgs cfg n xs >>= fun r => concatMsgs cfg n (r :: ys)) (concatMsgs cfg n (xs ++ ys)) := by
+  have hT := concatTC_rechunk cfg (xs.flatMap (·.toolCalls)) (ys.flatMap (·.toolCalls))
+  have hE := concatEvs_rechunk cfg n (xs.map (·.extra)).flatten (ys.map (·.extra)).flatten
+  cases hx : concatMsgs cfg n xs with
+  | error x =>
+    rw [concatMsgs_eq] at hx
+    have herr : IsErr (concatMsgs cfg n (xs ++ ys)) := by
+      rw [concatMsgs_eq]
+      apply assemble_err
+      simp only [List.map_append, List.flatMap_append, List.flatten_append]
+      rcases assemble_err_inv _ _ _ _ _ _ _ _ _ hx with h | h | h | h | h
+      · exact Or.inl (firstNE_err_append _ _ _ h)
+      · exact Or.inr (Or.inl (firstNE_err_append _ _ _ h))
+      · exact Or.inr (Or.inr (Or.inl (firstNE_err_append _ _ _ h)))
+      · obtain ⟨e, he⟩ := h
+        rw [he] at hT
+        exact Or.inr (Or.inr (Or.inr (Or.inl ⟨e, hT.symm⟩)))
+      · obtain ⟨e, he⟩ := h
+        rw [he] at hE
+        obtain ⟨e', he'⟩ := EqvE.error_left hE
+        exact Or.inr (Or.inr (Or.inr (Or.inr ⟨e', he'⟩)))
+    obtain ⟨e, he⟩ := herr
+    simp [bind, Except.bind, he, EqvE]
+  | ok r =>
+    rw [concatMsgs_eq] at hx
+    obtain ⟨a, b, i, d, e, hR, hN, hI, hTx, hEx, hr⟩ := assemble_ok _ _ _ _ _ _ _ _ _ hx
+    simp only [bind, Except.bind]
+    rw [concatMsgs_eq, concatMsgs_eq]
+    subst hr
+    simp only [List.map_cons, List.map_append, List.flatMap_cons, List.flatMap_append, List.flatten_cons,
+      List.flatten_append]
+    rw [firstNE_ok_append _ _ _ _ hR, firstNE_ok_append _ _ _ _ hN, firstNE_ok_append _ _ _ _ hI,
+      joinS_rechunk, lastNEl_rechunk, concatMeta_rechunk]
+    rw [hTx] at hT
+    simp only [bind, Except.bind] at hT
+    rw [hT]
+    rw [hEx] at hE
+    simp only [bind, Except.bind] at hE
+    exact assemble_eqv _ _ _ _ _ _ _ _ _ hE
+
+theorem allSome_append {α} (a b : List (Option α)) :
+    allSome (a ++ b) = (match allSome a, allSome b with
+      | some x, some y => some (x ++ y)
+      | _, _ => none) := by
+  induction a with
+  | nil => simp [allSome]; cases allSome b <;> rfl
+  | cons h t ih =>
+    cases h with
+    | none => simp [allSome]
+    | some x =>
+      simp only [List.cons_append, allSome, ih]
+      cases allSome t <;> cases allSome b <;> rfl
+
+/-- the same for `[]*Message` (a nil chunk is an error) -/
+theorem concatMsgPtrs_rechunk (cfg : Cfg) (n : Nat) (xs ys : List (Option Msg)) :
+    EqvE (concatMsgPtrs cfg n xs >>= fun r => concatMsgPtrs cfg n (some r :: ys)) (concatMsgPtrs cfg n (xs ++ ys)) := by
+  unfold concatMsgPtrs
+  rw [allSome_append]
+  cases hx : allSome xs with
+  | none => simp [bind, Except.bind, EqvE]
+  | some ms =>
+    cases hy : allSome ys with
+    | none =>
+      simp only [allSome, hy]
+      cases concatMsgs cfg n ms <;> simp [bind, Except.bind, EqvE]
+    | some ms' =>
+      simp only [allSome, hy]
+      exact concatMsgs_rechunk cfg n ms ms'
+
+/-! ### compose-level stream concatenation -/
+
+theorem concatStream_rechunk {α} (core : List α → Except Err α)
+    (hcore : ∀ xs ys, xs ≠ [] → EqvE (core xs >>= fun r => core (r :: ys)) (core (xs ++ ys)))
+    (xs ys : List α) (hxs : xs ≠ []) :
+    EqvE (concatStream core xs >>= fun r => concatStream core (r :: ys)) (concatStream core (xs ++ ys)) := by
+  cases xs with
+  | nil => exact absurd rfl hxs
+  | cons x t =>
+    cases t with
+    | nil => simp only [concatStream, bind, Except.bind, List.cons_append, List.nil_append]; exact EqvE.rfl' _
+    | cons x' t' =>
+      cases ys with
+      | nil =>
+        simp only [concatStream, List.append_nil]
+        cases core (x :: x' :: t') <;> simp [bind, Except.bind, EqvE, concatStream]
+      | cons y t'' =>
+        have := hcore (x :: x' :: t') (y :: t'') (by simp)
+        simp only [concatStream, List.cons_append] at this ⊢
+        cases hc : core (x :: x' :: t') with
+        | error e => rw [hc] at this; simpa [bind, Except.bind] using this
+        | ok r => rw [hc] at this; simpa [bind, Except.bind, concatStream] using this
+
+def strCore (cfg : Cfg) (xs : List String) : Except Err String :=
+  match combineSc (cfg.rule "string") "string" xs with
+  | .ok (.sc _ v) => .ok v
+  | .ok _ => .error .fail
+  | .error e => .error e
+
+theorem strCore_rechunk (cfg : Cfg) (xs ys : List String) (hxs : xs ≠ []) :
+    EqvE (strCore cfg xs >>= fun r => strCore cfg (r :: ys)) (strCore cfg (xs ++ ys)) := by
+  unfold strCore
+  cases hc : combineSc (cfg.rule "string") "string" xs with
+  | error e =>
+    obtain ⟨e', he⟩ := combineSc_mono _ _ xs ys e hxs hc
+    simp [bind, Except.bind, he, EqvE]
+  | ok x =>
+    obtain ⟨u, hu⟩ := combineSc_sc _ _ _ _ hc
+    subst hu
+    simp only [bind, Except.bind]
+    rw [combineSc_rechunk _ _ xs ys u hxs hc]
+    exact EqvE.rfl' _
+
+theorem concatStrChunks_rechunk (cfg : Cfg) (xs ys : List String) (hxs : xs ≠ []) :
+    EqvE (concatStrChunks cfg xs >>= fun r => concatStrChunks cfg (r :: ys)) (concatStrChunks cfg (xs ++ ys)) :=
+  concatStream_rechunk (strCore cfg) (fun a b h => strCore_rechunk cfg a b h) xs ys hxs
+
+theorem concatMapChunks_rechunk (cfg : Cfg) (n : Nat) (xs ys : List KVs) (hxs : xs ≠ []) :
+    EqvE (concatMapChunks cfg n xs >>= fun r => concatMapChunks cfg n (r :: ys)) (concatMapChunks cfg n (xs ++ ys)) :=
+  concatStream_rechunk (concatMaps cfg n) (fun a b _ => concatMaps_rechunk cfg n a b) xs ys hxs
+
+theorem concatMsgChunks_rechunk (cfg : Cfg) (n : Nat) (xs ys : List (Option Msg)) (hxs : xs ≠ []) :
+    EqvE (concatMsgChunks cfg n xs >>= fun r => concatMsgChunks cfg n (r :: ys)) (concatMsgChunks cfg n (xs ++ ys)) := by
+  apply concatStream_rechunk _ _ xs ys hxs
+  intro a b _
+  have := concatMsgPtrs_rechunk cfg n a b
+  cases h1 : concatMsgPtrs cfg n a with
+  | error e =>
+    rw [h1] at this
+    obtain ⟨e', he⟩ := EqvE.error_left this
+    simp [Except.map, bind, Except.bind, he, EqvE]
+  | ok r =>
+    rw [h1] at this
+    simp only [bind, Except.bind] at this
+    simp only [Except.map, bind, Except.bind]
+    cases h2 : concatMsgPtrs cfg n (some r :: b) <;> cases h3 : concatMsgPtrs cfg n (a ++ b) <;>
+      simp_all [EqvE]
+
+/-! ### tool calls: what the result is (grouping by index, argument order) -/
+
+theorem mergeTC_args (cfg : Cfg) (g c g' : TC) (h : mergeTC cfg g c = .ok g') : g'.args = g.args ++ c.args := by
+  unfold mergeTC at h
+  cases h1 : pick cfg.tcIdCheck g.id c.id <;> simp [h1, bind, Except.bind] at h
+  cases h2 : pick cfg.tcTypeCheck g.type c.type <;> simp [h2] at h
+  cases h3 : pick cfg.tcNameCheck g.name c.name <;> simp [h3, pure, Except.pure] at h
+  subst h; rfl
+
+theorem insertG_spec (cfg : Cfg) (i : Int) (c : TC) (gs gs' : List (Int × TC)) (hs : GSorted gs)
+    (h : insertG cfg i c gs = .ok gs') :
+    ∀ j g', (j, g') ∈ gs' →
+      (j ≠ i ∧ (j, g') ∈ gs) ∨
+      (j = i ∧ ((g' = c ∧ ∀ p ∈ gs, p.1 ≠ i) ∨ ∃ g, (i, g) ∈ gs ∧ mergeTC cfg g c = .ok g')) := by
+  induction gs generalizing gs' with
+  | nil =>
+    simp [insertG] at h; subst h
+    intro j g' hm; simp at hm
+    right; exact ⟨hm.1, Or.inl ⟨hm.2, by simp⟩⟩
+  | cons hd rest ih =>
+    obtain ⟨j0, g0⟩ := hd
+    obtain ⟨hlb, hsr⟩ := hs
+    unfold insertG at h
+    split at h
+    · rename_i hlt
+      cases h
+      intro j g' hm
+      simp only [List.mem_cons, Prod.mk.injEq] at hm
+      rcases hm with ⟨rfl, rfl⟩ | ⟨rfl, rfl⟩ | hm
+      · right; refine ⟨rfl, Or.inl ⟨rfl, ?_⟩⟩
+        intro p hp; simp only [List.mem_cons] at hp
+        rcases hp with rfl | hp
+        · simp; omega
+        · have := hlb p hp; omega
+      · left; exact ⟨by omega, by simp⟩
+      · left; have := hlb _ hm; simp only at this; exact ⟨by omega, by simp [hm]⟩
+    · split at h
+      · rename_i hnlt heq
+        cases hm' : mergeTC cfg g0 c <;> simp [hm', bind, Except.bind, pure, Except.pure] at h
+        rename_i merged
+        subst h; subst heq
+        intro j g' hm
+        simp only [List.mem_cons, Prod.mk.injEq] at hm
+        rcases hm with ⟨rfl, rfl⟩ | hm
+        · right; exact ⟨rfl, Or.inr ⟨g0, by simp, hm'⟩⟩
+        · left; have := hlb _ hm; simp only at this; exact ⟨by omega, by simp [hm]⟩
+      · rename_i hnlt hne
+        cases hr : insertG cfg i c rest <;> simp [hr, bind, Except.bind, pure, Except.pure] at h
+        rename_i r'
+        subst h
+        intro j g' hm
+        simp only [List.mem_cons, Prod.mk.injEq] at hm
+        rcases hm with ⟨rfl, rfl⟩ | hm
+        · left; exact ⟨by omega, by simp⟩
+        · rcases ih r' hsr hr j g' hm with ⟨h1, h2⟩ | ⟨h1, h2 | ⟨g, hg, hmg⟩⟩
+          · left; exact ⟨h1, by simp [h2]⟩
+          · right; refine ⟨h1, Or.inl ⟨h2.1, ?_⟩⟩
+            intro p hp; simp only [List.mem_cons] at hp
+            rcases hp with rfl | hp
+            · simp; omega
+            · exact h2.2 p hp
+          · right; exact ⟨h1, Or.inr ⟨g, by simp [hg], hmg⟩⟩
+
+theorem insertG_keys_sup (cfg : Cfg) (i : Int) (c : TC) (gs gs' : List (Int × TC))
+    (h : insertG cfg i c gs = .ok gs') :
+    (∃ p ∈ gs', p.1 = i) ∧ ∀ q ∈ gs, ∃ p ∈ gs', p.1 = q.1 := by
+  induction gs generalizing gs' with
+  | nil => simp [insertG] at h; subst h; simp
+  | cons hd rest ih =>
+    obtain ⟨j0, g0⟩ := hd
+    unfold insertG at h
+    split at h
+    · cases h
+      refine ⟨⟨(i, c), by simp, rfl⟩, ?_⟩
+      intro q hq; exact ⟨q, by simp only [List.mem_cons] at hq ⊢; exact Or.inr hq, rfl⟩
+    · split at h
+      · rename_i heq
+        cases hm' : mergeTC cfg g0 c <;> simp [hm', bind, Except.bind, pure, Except.pure] at h
+        subst h
+        refine ⟨⟨_, List.mem_cons_self, heq.symm⟩, ?_⟩
+        intro q hq; simp only [List.mem_cons] at hq
+        rcases hq with rfl | hq
+        · exact ⟨_, List.mem_cons_self, rfl⟩
+        · exact ⟨q, by simp [hq], rfl⟩
+      · cases hr : insertG cfg i c rest <;> simp [hr, bind, Except.bind, pure, Except.pure] at h
+        subst h
+        obtain ⟨⟨p, hp, hpi⟩, h2⟩ := ih _ hr
+        refine ⟨⟨p, by simp [hp], hpi⟩, ?_⟩
+        intro q hq; simp only [List.mem_cons] at hq
+        rcases hq with rfl | hq
+        · exact ⟨_, List.mem_cons_self, rfl⟩
+        · obtain ⟨p', hp', he⟩ := h2 q hq
+          exact ⟨p', by simp [hp'], he⟩
+
+/-- what the fold state means after the chunks `pre` -/
+def TCSpec (pre : List TC) (s : TCState) : Prop :=
+  s.nils = pre.filter (fun c => c.index = none) ∧
+  (∀ j g, (j, g) ∈ s.groups → g.args = joinS ((pre.filter (fun c => c.index = some j)).map (·.args))) ∧
+  (∀ i, (∃ c ∈ pre, c.index = some i) ↔ (∃ p ∈ s.groups, p.1 = i))
+
+theorem stepTC_spec (cfg : Cfg) (pre : List TC) (s s' : TCState) (c : TC) (hi : SInv s) (hp : TCSpec pre s)
+    (h : stepTC cfg s c = .ok s') : TCSpec (pre ++ [c]) s' := by
+  obtain ⟨hn, ha, hk⟩ := hp
+  unfold stepTC at h
+  split at h
+  · rename_i hnone
+    cases h
+    refine ⟨by simp [List.filter_append, hn, hnone], ?_, ?_⟩
+    · intro j g hm
+      simp [List.filter_append, hnone, ha j g hm]
+    · intro i
+      rw [← hk i]
+      constructor
+      · rintro ⟨c', hc', hi'⟩
+        simp only [List.mem_append, List.mem_singleton] at hc'
+        rcases hc' with hc' | rfl
+        · exact ⟨c', hc', hi'⟩
+        · rw [hnone] at hi'; cases hi'
+      · rintro ⟨c', hc', hi'⟩; exact ⟨c', by simp [hc'], hi'⟩
+  · rename_i i hsome
+    cases hr : insertG cfg i c s.groups <;> simp [hr, bind, Except.bind, pure, Except.pure] at h
+    rename_i gs'
+    subst h
+    refine ⟨by simp [List.filter_append, hn, hsome], ?_, ?_⟩
+    · intro j g' hm
+      simp only at hm
+      rcases insertG_spec cfg i c _ _ hi.2.1 hr j g' hm with ⟨hne, hin⟩ | ⟨rfl, ⟨rfl, hno⟩ | ⟨g, hg, hmg⟩⟩
+      · have : ¬ (some i = some j) := by intro e; cases e; exact hne rfl
+        simp [List.filter_append, hsome, this, ha j g' hin]
+      · have hempty : pre.filter (fun c => c.index = some j) = [] := by
+          rw [List.filter_eq_nil_iff]
+          intro c' hc' hidx
+          simp only [decide_eq_true_eq] at hidx
+          obtain ⟨p, hp, hpj⟩ := (hk j).1 ⟨c', hc', hidx⟩
+          exact hno p hp hpj
+        simp [List.filter_append, hsome, hempty, joinS, String.append_empty]
+      · rw [mergeTC_args _ _ _ _ hmg, ha _ g hg]
+        simp [List.filter_append, hsome, joinS_append, joinS, String.append_empty]
+    · intro i'
+      simp only
+      obtain ⟨hnew, hold⟩ := insertG_keys_sup cfg i c _ _ hr
+      constructor
+      · rintro ⟨c', hc', hi'⟩
+        simp only [List.mem_append, List.mem_singleton] at hc'
+        rcases hc' with hc' | rfl
+        · obtain ⟨q, hq, hqi⟩ := (hk i').1 ⟨c', hc', hi'⟩
+          obtain ⟨p, hp, hpq⟩ := hold q hq
+          exact ⟨p, hp, by omega⟩
+        · rw [hsome] at hi'; cases hi'; exact hnew
+      · rintro ⟨p, hp, hpi⟩
+        rcases insertG_keys cfg i c _ _ hr p hp with h1 | ⟨q, hq, he⟩
+        · exact ⟨c, by simp, by rw [hsome, ← hpi, h1]⟩
+        · obtain ⟨c', hc', hi'⟩ := (hk i').2 ⟨q, hq, by omega⟩
+          exact ⟨c', by simp [hc'], hi'⟩
+
+theorem foldlM_stepTC_spec (cfg : Cfg) (cs pre : List TC) (s s' : TCState) (hi : SInv s) (hp : TCSpec pre s)
+    (h : cs.foldlM (stepTC cfg) s = .ok s') : TCSpec (pre ++ cs) s' := by
+  induction cs generalizing pre s with
+  | nil => simp [pure, Except.pure] at h; subst h; simpa using hp
+  | cons c cs ih =>
+    simp only [List.foldlM_cons] at h
+    cases hs : stepTC cfg s c <;> simp [hs, bind, Except.bind] at h
+    have := ih (pre ++ [c]) _ (stepTC_inv cfg _ _ _ hi hs) (stepTC_spec cfg pre _ _ c hi hp hs) h
+    simpa using this
+
+theorem tcspec_init : TCSpec [] ⟨[], []⟩ := by
+  refine ⟨rfl, ?_, ?_⟩
+  · intro j g hm; cases hm
+  · intro i; simp
+
+theorem gsorted_pairwise (gs : List (Int × TC)) (h : GSorted gs) : gs.Pairwise (fun p q => p.1 < q.1) := by
+  induction gs with
+  | nil => exact List.Pairwise.nil
+  | cons hd tl ih =>
+    obtain ⟨j, g⟩ := hd
+    exact List.Pairwise.cons (fun p hp => h.1 p hp) (ih h.2)
+
+/-- Everything `concatToolCalls` promises about a successful result. -/
+theorem concatTC_spec (cfg : Cfg) (cs out : List TC) (h : concatTC cfg cs = .ok out) :
+    ∃ gs : List (Int × TC),
+      out = cs.filter (fun c => c.index = none) ++ gs.map (·.2) ∧
+      gs.Pairwise (fun p q => p.1 < q.1) ∧
+      (∀ p ∈ gs, p.2.index = some p.1) ∧
+      (∀ i, (∃ c ∈ cs, c.index = some i) ↔ (∃ p ∈ gs, p.1 = i)) ∧
+      (∀ p ∈ gs, p.2.args = joinS ((cs.filter (fun c => c.index = some p.1)).map (·.args))) := by
+  unfold concatTC at h
+  cases hf : cs.foldlM (stepTC cfg) ⟨[], []⟩ <;> simp [hf, bind, Except.bind, pure, Except.pure] at h
+  rename_i s
+  subst h
+  have hi := foldlM_stepTC_inv cfg cs _ _ sinv_init hf
+  have hp := foldlM_stepTC_spec cfg cs [] _ _ sinv_init tcspec_init hf
+  simp only [List.nil_append] at hp
+  obtain ⟨hn, ha, hk⟩ := hp
+  refine ⟨s.groups, by simp [TCState.out, hn], gsorted_pairwise _ hi.2.1, hi.2.2, hk, ?_⟩
+  intro p hp; exact ha p.1 p.2 hp
+
+/-! ### error classes: which outcomes are reachable -/
+
+theorem pick_err (c : Bool) (a b : String) (e : Err) (h : pick c a b = .error e) : e = .fail := by
+  unfold pick at h
+  split at h; · cases h
+  split at h; · cases h
+  split at h <;> cases h; rfl
+
+theorem firstNE_err (c : Bool) (acc : String) (l : List String) (e : Err) (h : firstNE c acc l = .error e) :
+    e = .fail := by
+  induction l generalizing acc with
+  | nil => simp [firstNE] at h
+  | cons x xs ih =>
+    simp only [firstNE] at h
+    cases hp : pick c acc x with
+    | error e' => simp [hp, bind, Except.bind] at h; subst h; exact pick_err _ _ _ _ hp
+    | ok a => simp [hp, bind, Except.bind] at h; exact ih a h
+
+theorem mergeTC_err (cfg : Cfg) (g c : TC) (e : Err) (h : mergeTC cfg g c = .error e) : e = .fail := by
+  unfold mergeTC at h
+  cases h1 : pick cfg.tcIdCheck g.id c.id with
+  | error e' => simp [h1, bind, Except.bind] at h; subst h; exact pick_err _ _ _ _ h1
+  | ok a =>
+    simp [h1, bind, Except.bind] at h
+    cases h2 : pick cfg.tcTypeCheck g.type c.type with
+    | error e' => simp [h2] at h; subst h; exact pick_err _ _ _ _ h2
+    | ok b =>
+      simp [h2] at h
+      cases h3 : pick cfg.tcNameCheck g.name c.name with
+      | error e' => simp [h3] at h; subst h; exact pick_err _ _ _ _ h3
+      | ok d => simp [h3, pure, Except.pure] at h
+
+theorem insertG_err (cfg : Cfg) (i : Int) (c : TC) (gs : List (Int × TC)) (e : Err)
+    (h : insertG cfg i c gs = .error e) : e = .fail := by
+  induction gs with
+  | nil => simp [insertG] at h
+  | cons hd rest ih =>
+    obtain ⟨j, g⟩ := hd
+    unfold insertG at h
+    split at h; · cases h
+    split at h
+    · cases hm : mergeTC cfg g c with
+      | error e' => simp [hm, bind, Except.bind] at h; subst h; exact mergeTC_err _ _ _ _ hm
+      | ok g' => simp [hm, bind, Except.bind, pure, Except.pure] at h
+    · cases hr : insertG cfg i c rest with
+      | error e' => simp [hr, bind, Except.bind] at h; subst h; exact ih hr
+      | ok r => simp [hr, bind, Except.bind, pure, Except.pure] at h
+
+theorem stepTC_err (cfg : Cfg) (s : TCState) (c : TC) (e : Err) (h : stepTC cfg s c = .error e) : e = .fail := by
+  unfold stepTC at h
+  split at h; · cases h
+  rename_i i _
+  cases hr : insertG cfg i c s.groups with
+  | error e' => simp [hr, bind, Except.bind] at h; subst h; exact insertG_err _ _ _ _ _ hr
+  | ok r => simp [hr, bind, Except.bind, pure, Except.pure] at h
+
+theorem concatTC_err (cfg : Cfg) (cs : List TC) (e : Err) (h : concatTC cfg cs = .error e) : e = .fail := by
+  unfold concatTC at h
+  have key : ∀ (cs : List TC) (s : TCState), cs.foldlM (stepTC cfg) s = .error e → e = .fail := by
+    intro cs
+    induction cs with
+    | nil => intro s h; simp [pure, Except.pure] at h
+    | cons c cs ih =>
+      intro s h
+      simp only [List.foldlM_cons] at h
+      cases hs : stepTC cfg s c with
+      | error e' => simp [hs, bind, Except.bind] at h; subst h; exact stepTC_err _ _ _ _ hs
+      | ok s1 => simp [hs, bind, Except.bind] at h; exact ih s1 h
+  cases hf : cs.foldlM (stepTC cfg) ⟨[], []⟩ with
+  | error e' => simp [hf, bind, Except.bind] at h; subst h; exact key _ _ hf
+  | ok s => simp [hf, bind, Except.bind, pure, Except.pure] at h
+
+theorem assemble_err_exact (R N I T E c m rm) (x : Err) (h : assemble R N I T E c m rm = .error x) :
+    R = .error x ∨ N = .error x ∨ I = .error x ∨ T = .error x ∨ E = .error x := by
+  unfold assemble at h
+  cases R <;> cases N <;> cases I <;> cases T <;> cases E <;>
+    simp_all [bind, Except.bind, pure, Except.pure]
+
+/-- an error of `ConcatMessages` is an ordinary failure or comes from the extras -/
+theorem concatMsgs_err (cfg : Cfg) (n : Nat) (ms : List Msg) (e : Err) (h : concatMsgs cfg n ms = .error e) :
+    e = .fail ∨ concatEvs cfg n (ms.map (·.extra)).flatten = .error e := by
+  rw [concatMsgs_eq] at h
+  rcases assemble_err_exact _ _ _ _ _ _ _ _ _ h with h | h | h | h | h
+  · exact Or.inl (firstNE_err _ _ _ _ h)
+  · exact Or.inl (firstNE_err _ _ _ _ h)
+  · exact Or.inl (firstNE_err _ _ _ _ h)
+  · exact Or.inl (concatTC_err _ _ _ h)
+  · exact Or.inr h
+
+def extrasDepth (ms : List Msg) : Nat := depthKVs (ms.map (·.extra)).flatten
+
+theorem concatMsgs_total (cfg : Cfg) (hg : cfg.nilAbsent = true) (n : Nat) (ms : List Msg)
+    (hn : extrasDepth ms < n) :
+    (∃ m, concatMsgs cfg n ms = .ok m) ∨ concatMsgs cfg n ms = .error .fail := by
+  cases h : concatMsgs cfg n ms with
+  | ok m => exact Or.inl ⟨m, rfl⟩
+  | error e =>
+    right
+    rcases concatMsgs_err cfg n ms e h with h1 | h2
+    · rw [h1]
+    · cases e with
+      | fail => rfl
+      | panic => exact absurd h2 (concatEvs_no_panic cfg hg n _)
+      | fuel => exact absurd h2 (concatEvs_fuel_ok cfg n _ hn)
+
+theorem concatMsgPtrs_total (cfg : Cfg) (hg : cfg.nilAbsent = true) (n : Nat) (cs : List (Option Msg))
+    (hn : ∀ ms, allSome cs = some ms → extrasDepth ms < n) :
+    (∃ m, concatMsgPtrs cfg n cs = .ok m) ∨ concatMsgPtrs cfg n cs = .error .fail := by
+  unfold concatMsgPtrs
+  cases h : allSome cs with
+  | none => exact Or.inr rfl
+  | some ms => exact concatMsgs_total cfg hg n ms (hn ms h)
+
+theorem concatMaps_total (cfg : Cfg) (hg : cfg.nilAbsent = true) (n : Nat) (ms : List KVs)
+    (hn : depthKVs ms.flatten < n) :
+    (∃ m, concatMaps cfg n ms = .ok m) ∨ concatMaps cfg n ms = .error .fail := by
+  unfold concatMaps
+  cases h : concatEvs cfg n ms.flatten with
+  | ok m => exact Or.inl ⟨m, rfl⟩
+  | error e =>
+    right
+    cases e with
+    | fail => rfl
+    | panic => exact absurd h (concatEvs_no_panic cfg hg n _)
+    | fuel => exact absurd h (concatEvs_fuel_ok cfg n _ hn)
+
+theorem concatStream_total {α} (core : List α → Except Err α)
+    (hc : ∀ xs, xs ≠ [] → (∃ m, core xs = .ok m) ∨ core xs = .error .fail) (xs : List α) :
+    (∃ m, concatStream core xs = .ok m) ∨ concatStream core xs = .error .fail := by
+  cases xs with
+  | nil => exact Or.inr rfl
+  | cons x t =>
+    cases t with
+    | nil => exact Or.inl ⟨x, rfl⟩
+    | cons y t' => exact hc _ (by simp)
+
+theorem strCore_total (cfg : Cfg) (xs : List String) (hxs : xs ≠ []) :
+    (∃ m, strCore cfg xs = .ok m) ∨ strCore cfg xs = .error .fail := by
+  unfold strCore
+  cases xs with
+  | nil => exact absurd rfl hxs
+  | cons v ps =>
+    cases hc : combineSc (cfg.rule "string") "string" (v :: ps) with
+    | error e => right; rw [combineSc_err _ _ _ _ _ hc]
+    | ok x =>
+      obtain ⟨u, hu⟩ := combineSc_sc _ _ _ _ hc
+      subst hu; exact Or.inl ⟨u, rfl⟩
+
+/-! ### what a successful `ConcatMessages` returns, field by field -/
+
+theorem concatMsgs_ok_fields (cfg : Cfg) (n : Nat) (ms : List Msg) (m : Msg) (h : concatMsgs cfg n ms = .ok m) :
+    firstNE cfg.roleCheck "" (ms.map (·.role)) = .ok m.role ∧
+    firstNE cfg.nameCheck "" (ms.map (·.name)) = .ok m.name ∧
+    firstNE cfg.tcidCheck "" (ms.map (·.toolCallID)) = .ok m.toolCallID ∧
+    m.content = joinS (ms.map (·.content)) ∧
+    m.multi = lastNEl [] (ms.map (·.multi)) ∧
+    concatTC cfg (ms.flatMap (·.toolCalls)) = .ok m.toolCalls ∧
+    m.rmeta = concatMeta (ms.map (·.rmeta)) ∧
+    concatEvs cfg n (ms.map (·.extra)).flatten = .ok m.extra := by
+  rw [concatMsgs_eq] at h
+  obtain ⟨a, b, i, d, e, hR, hN, hI, hT, hE, hr⟩ := assemble_ok _ _ _ _ _ _ _ _ _ h
+  subst hr
+  exact ⟨hR, hN, hI, rfl, rfl, hT, rfl, hE⟩
+
+def isPanic {α} : Except Err α → Bool
+  | .error .panic => true
+  | _ => false
+
+def isFail {α} : Except Err α → Bool
+  | .error .fail => true
+  | _ => false
+
 end EinoV.C14
